@@ -152,7 +152,7 @@ class ExpandedTraceback:
         for frame in reversed(frames):
             if frame.filename in self.show_filenames:
                 return frame.lineno + self.line_offsets.get(frame.filename, 0)
-        if (isinstance(self.exception, SyntaxError) and self.exception.lineno is not None and
+        if (isinstance(self.exception, SyntaxError) and self._has_usable_position() and
                 (self.exception.filename in self.show_filenames or
                  self.exception.filename in self.hide_filenames)):
             return self.exception.lineno + self.line_offsets.get(self.exception.filename, 0)
@@ -182,11 +182,13 @@ class ExpandedTraceback:
         # A SyntaxError has to be handled differently to actually get its output:
         # https://docs.python.org/3/library/traceback.html#traceback.print_exception
         # (CPython gives no position for some of them, e.g. a NUL byte in the source)
-        if isinstance(self.exception, SyntaxError) and self.exception.lineno is not None:
-            offset = self.exception.offset if self.exception.offset is not None else 1
+        # (and student code can raise a SyntaxError it made itself, with anything
+        # at all in the position fields: only a real line number is a position)
+        if isinstance(self.exception, SyntaxError) and self._has_usable_position():
+            offset = self.exception.offset if type(self.exception.offset) is int else 1
             if IS_AT_LEAST_PYTHON_310 and not IS_SKULPT:
                 end_lineno = self.exception.end_lineno
-                end_offset = offset if self.exception.end_offset not in {None, 0} else offset
+                end_offset = offset if self.exception.end_offset not in (None, 0) else offset
                 end_offset = offset + 1 if offset == end_offset or end_offset == -1 else end_offset
             else:
                 end_lineno = self.exception.lineno
@@ -198,6 +200,18 @@ class ExpandedTraceback:
             if not frames or fake_frame != frames[-1]:
                 frames.append(fake_frame)
         return frames
+
+    def _has_usable_position(self):
+        """
+        Whether the SyntaxError carries a position that can be shown: an
+        actual integer from 1 on as the line, in a file named by a string (or
+        in no file). The compiler always gives that (or no line at all, e.g.
+        for a NUL byte in the source), but ``raise SyntaxError(msg, (file,
+        '3', 'a', text))`` in student code does not have to.
+        """
+        lineno, filename = self.exception.lineno, self.exception.filename
+        return (type(lineno) is int and lineno >= 1 and
+                (filename is None or isinstance(filename, str)))
 
     def _fix_frame_line(self, frame):
         if frame.filename in self.line_offsets:
